@@ -647,3 +647,78 @@ def check_bph_emission(chk, fi: FuncInfo, store: str, cls_name: str, en: str) ->
             cls_ok = False
     ok = [norm(x) for x in call.args[:2]] == want01 and cls_ok
     chk.expect(ok, "bph-emission", fi.site(site), f"every (pair, class) becomes {cls_name}(Residue(donor), Residue(acceptor), {en}[_class]) (read over the elements of the merged map)", f"{cls_name} objects are not built as (Residue(donor), Residue(acceptor), {en}[f'_{{class}}']) from every (pair, class) of the merged map: arguments {got}", K(fi, f"{cls_name}-emission"), found=got)
+
+
+# ---------------------------------------------------------------------------------------------------------------------
+# sorted(<recorded tuples>, key=...) - the key must be the residues' own order
+# ---------------------------------------------------------------------------------------------------------------------
+def check_sort_key(chk, fi: FuncInfo, call: ast.Call, rule: str, what: str) -> Optional[bool]:
+    """`sorted(X)` orders the recorded (residue, residue, ...) tuples by Residue3D.__lt__.  With `key=` the order is whatever the key
+    says: it is the same order only if, residue by residue, the key holds the residue itself or every component Residue3D.__lt__
+    compares, in its order.  Returns True (same order), False (reported), None (not readable: reported as analysis error)."""
+    keys = [k for k in call.keywords if k.arg == "key"]
+    if not keys:
+        return True
+    if any(k.arg == "reverse" for k in call.keywords):
+        chk.error(rule, fi.site(call), f"{what}: sorted(..., reverse=...) not read")
+        return None
+    kf = keys[0].value
+    body = None
+    param = None
+    if isinstance(kf, ast.Lambda) and len(kf.args.args) == 1:
+        param, body = kf.args.args[0].arg, [ast.Return(value=kf.body)]
+    elif isinstance(kf, ast.Name):
+        defs = [n for n in ast.walk(fi.node) if isinstance(n, ast.FunctionDef) and n.name == kf.id]
+        if len(defs) == 1 and len(defs[0].args.args) == 1:
+            param, body = defs[0].args.args[0].arg, defs[0].body
+    if body is None:
+        chk.error(rule, fi.site(call), f"{what}: sort key `{norm(kf)[:60]}` not readable")
+        return None
+    elem = ast.Tuple(elts=[ast.Name(id="R1", ctx=ast.Load()), ast.Name(id="R2", ctx=ast.Load()), ast.Name(id="REST", ctx=ast.Load())], ctx=ast.Load())
+    try:
+        paths = [p for p in SX.run(body, {param: elem}) if p.exit == "return"]
+    except SX.TooManyPaths:
+        paths = []
+    if len(paths) != 1 or paths[0].conds:
+        chk.error(rule, fi.site(call), f"{what}: sort key `{norm(kf)[:60]}` is not one expression of the recorded tuple")
+        return None
+    ret = paths[0].ret
+    comps = list(ret.elts) if isinstance(ret, ast.Tuple) else [ret]
+    f3 = chk.repo.func(T3, "Residue3D.__lt__")
+    ks = order_keys(f3)
+    if ks is None or len({tuple(k) for _, k in ks}) != 1:
+        chk.error(rule, fi.site(call), "ordering key of Residue3D.__lt__ not readable")
+        return None
+    full = [t.replace("X.", "").split(" or ")[0] for t in ks[0][1]]
+    seen: Dict[str, List[str]] = {"R1": [], "R2": []}
+    order: List[str] = []
+    for c in comps:
+        t = norm(c)
+        if t in ("R1", "R2"):
+            seen[t] = list(full)
+            order.append(t)
+            continue
+        if t == "REST":
+            continue
+        e = c.values[0] if isinstance(c, ast.BoolOp) and isinstance(c.op, ast.Or) and len(c.values) == 2 and isinstance(c.values[1], ast.Constant) else c
+        if isinstance(e, ast.Attribute) and isinstance(e.value, ast.Name) and e.value.id in seen:
+            seen[e.value.id].append(e.attr)
+            order.append(e.value.id)
+            continue
+        chk.error(rule, fi.site(call), f"{what}: component `{t[:50]}` of the sort key not readable")
+        return None
+    grouped = [r for k, r in enumerate(order) if k == 0 or order[k - 1] != r]
+    problems = []
+    for r in ("R1", "R2"):
+        miss = [f for f in full if f not in seen[r]]
+        if miss:
+            problems.append(f"the {'first' if r == 'R1' else 'second'} residue without {miss}")
+        elif [f for f in seen[r] if f in full] != full:
+            problems.append(f"the components of the {'first' if r == 'R1' else 'second'} residue in the order {seen[r]}")
+    if grouped != ["R1", "R2"]:
+        problems.append("the two residues interleaved or in the other order")
+    if problems:
+        chk.violation(rule, fi.site(call), f"{what} are sorted with the key `{norm(ret)[:90]}`: it holds {'; '.join(problems)}, while Residue3D.__lt__ - the order that `lower residue first` and every other sorted list use - compares {full}: residues that differ only in the omitted component tie and keep their KD-tree arrival order (or follow their partner), so the list is not in residue order", K(fi, "sort-key"), expected=full, found={k: v for k, v in seen.items()})
+        return False
+    chk.ok(rule, fi.site(call), f"{what}: the sort key holds, residue by residue, every component Residue3D.__lt__ compares ({full})")
+    return True
